@@ -538,6 +538,43 @@ static size_t get_value_size(carquet_physical_type_t type, int32_t type_length) 
 }
 
 /* ============================================================================
+ * Helper: retained page buffers for BYTE_ARRAY values
+ * ============================================================================
+ */
+
+/**
+ * Install a new retained page buffer. The previous one may still be referenced
+ * by BYTE_ARRAY values returned earlier in the same read call (a read that
+ * crosses a page boundary), so it is parked until the next call instead of
+ * being freed here.
+ */
+static carquet_status_t retain_page_data(carquet_column_reader_t* reader,
+                                          uint8_t* page_data) {
+    if (reader->page_data_for_values) {
+        if (reader->retired_count == reader->retired_capacity) {
+            size_t new_cap = reader->retired_capacity ? reader->retired_capacity * 2 : 4;
+            uint8_t** grown = realloc(reader->retired_page_data,
+                                      new_cap * sizeof(uint8_t*));
+            if (!grown) {
+                return CARQUET_ERROR_OUT_OF_MEMORY;
+            }
+            reader->retired_page_data = grown;
+            reader->retired_capacity = new_cap;
+        }
+        reader->retired_page_data[reader->retired_count++] = reader->page_data_for_values;
+    }
+    reader->page_data_for_values = page_data;
+    return CARQUET_OK;
+}
+
+void carquet_column_release_retired_pages(carquet_column_reader_t* reader) {
+    for (size_t i = 0; i < reader->retired_count; i++) {
+        free(reader->retired_page_data[i]);
+    }
+    reader->retired_count = 0;
+}
+
+/* ============================================================================
  * Helper: Load dictionary page (mmap path)
  * ============================================================================
  */
@@ -931,8 +968,11 @@ static carquet_status_t load_next_page_mmap(
      * which persists for the reader's lifetime, so no retention needed. */
     if (decompressed && reader->type == CARQUET_PHYSICAL_BYTE_ARRAY &&
         page_header.data_page_header.encoding == CARQUET_ENCODING_PLAIN) {
-        free(reader->page_data_for_values);
-        reader->page_data_for_values = decompressed;
+        if (retain_page_data(reader, decompressed) != CARQUET_OK) {
+            free(decompressed);
+            CARQUET_SET_ERROR(error, CARQUET_ERROR_OUT_OF_MEMORY, "Failed to retain page data");
+            return CARQUET_ERROR_OUT_OF_MEMORY;
+        }
     } else {
         free(decompressed);
     }
@@ -1114,11 +1154,15 @@ static carquet_status_t load_next_page_fread(
                    page_header.data_page_header.encoding == CARQUET_ENCODING_PLAIN);
 
     if (retain) {
-        free(reader->page_data_for_values);
-        reader->page_data_for_values = page_data;
+        carquet_status_t retain_status = retain_page_data(reader, page_data);
         /* Free compressed buffer only if it's a separate allocation */
         if (compressed && compressed != page_data) {
             free(compressed);
+        }
+        if (retain_status != CARQUET_OK) {
+            free(page_data);
+            CARQUET_SET_ERROR(error, retain_status, "Failed to retain page data");
+            return retain_status;
         }
     } else {
         if (page_data != compressed) {
